@@ -15,7 +15,8 @@ TECHNIQUE = "property-based testing (Hypothesis) over tree-construction programs
 RULE = (
     "Generated: a 'keeping' skeleton (the constructors that keep the object they are given: Label, UntypedLabel, Index, "
     "Branch children and Select.cut, nested up to 3 levels) with arbitrary subtrees at its leaves, and two installing "
-    "positions: siblings, cousins under different parents, or a node and its own ancestor (a cycle, only constructible "
+    "positions: siblings, cousins under different parents, an aggregator inside one sub-tree (a bin, a flow, a nanflow) and "
+    "a position or nanflow slot elsewhere, or a node and its own ancestor (a cycle, only constructible "
     "by assigning the attribute after construction); the shared object is whatever subtree was built at the first "
     "position, installed through the constructors or assigned into a tree derived by copy / + / * / zero (filled before "
     "or not); row-wise or vectorised fill; first and repeated attempts.  Control group: the same skeletons without "
@@ -104,7 +105,7 @@ def strategy(tier):
         if spec["k"] not in KEEP:
             spec = {"k": "Branch", "values": [spec, draw(gen.tree_specs(leaf_opts))]}
         pos = keep_positions(spec)
-        mode = draw(st.sampled_from(("shared", "shared", "cycle", "control", "control")))
+        mode = draw(st.sampled_from(("shared", "shared", "inner", "cycle", "control", "control")))
         case = {"spec": spec, "mode": mode, "numpy": draw(st.booleans()), "templates": draw(st.sampled_from(("default", "explicit", "separate"))),
                 # a sub-tree may have been filled on its own (or unpickled) before it became part of the tree: its
                 # once-only flags are then already set when the root is filled for the first time
@@ -122,6 +123,19 @@ def strategy(tier):
                 # the tree may be a derived one (copy, +, *, zero) into which the second reference is assigned afterwards
                 case["install"] = draw(st.sampled_from(("ctor", "ctor", "assign")))
                 case["derive"] = draw(st.sampled_from(("none", "copy", "copy", "plus", "times", "zero", "copy-filled")))
+        elif mode == "inner":
+            # an aggregator living INSIDE one sub-tree (a bin, a flow, a nanflow, a cut ...) is installed a second time
+            # at a keeping position elsewhere, or as the nanflow of a node elsewhere
+            i = draw(st.integers(0, len(pos) - 1))
+            others = [p for p in pos if p != pos[i] and not is_prefix(pos[i], p) and not is_prefix(p, pos[i])]
+            if not others:
+                case["mode"] = "control"
+            else:
+                case["p1"] = list(pos[i])
+                case["p2"] = list(others[draw(st.integers(0, len(others) - 1))])
+                case["inner_i"] = draw(st.integers(0, 40))
+                case["how"] = draw(st.sampled_from(("keep", "nanflow")))
+                case["prefill"] = "none"
         elif mode == "cycle":
             # install an ancestor (or the node itself) as a child of a keeping node
             nodes = [()] + [p for p in pos if sub_at(spec, p)["k"] in KEEP]
@@ -320,6 +334,23 @@ def check(case):  # noqa: PLR0912, PLR0915
                 filled.fill(r, w)
             h = pickle.loads(pickle.dumps(h))  # pickling keeps the flags; sharing inside one pickle is preserved
             what += " (the tree was unpickled after the shared object had been filled on its own)"
+    elif mode == "inner":
+        b = Builder()
+        h = b.build(spec)
+        p1, p2 = tuple(case["p1"]), tuple(case["p2"])
+        inner = [(p_, n_) for p_, n_ in walk.walk(obj_at(h, p1))][1:]
+        if not inner:
+            return {"nontrivial": False, "labels": labels + ["no-inner-node"]}
+        ip, c = inner[case["inner_i"] % len(inner)]
+        hosts = [n_ for _, n_ in walk.walk(obj_at(h, p2)) if "nanflow" in vars(n_)] if case["how"] == "nanflow" else []
+        if hosts:
+            hosts[0].nanflow = c
+            what = f"the {c.name} at {'/'.join(map(str, p1 + ip))} also installed as the nanflow of a {hosts[0].name} under {'/'.join(map(str, p2))}"
+        else:
+            assign_at(h, p2, c)
+            what = f"the {c.name} at {'/'.join(map(str, p1 + ip))} also installed at {'/'.join(map(str, p2))}"
+        adjacent = False
+        labels.append("inner:" + c.name)
     else:
         b = Builder()
         h = b.build(spec)
